@@ -105,8 +105,14 @@ Fixpoint re_size (r : re) : nat :=
   | _ => 1%nat
   end.
 
-(* enough for every pattern/input pair in the tree; exhaustion is reported, not hidden *)
-Definition fuel_for (r : re) (s : bytes) : nat := ((re_size r + 3) * (length s + 2) * 2)%nat.
+(* Fuel bounds the recursion DEPTH of [m] (one unit per nested call), which is linear in the input
+   length for every pattern in the tree.  A single shared constant (2^21, built once) is used
+   rather than a per-call product: building a unary nat per call dominated the running time.
+   Exhaustion is reported ([SFuel]), never hidden. *)
+Fixpoint pow2_tail (k : nat) : nat :=
+  match k with O => 1%nat | S k' => let h := pow2_tail k' in Nat.tail_add h h end.
+Definition rx_fuel : nat := pow2_tail 21.
+Definition fuel_for (r : re) (s : bytes) : nat := rx_fuel.
 
 Inductive sres := SFuel | SNone | SFound (st e : nat) (c : caps).
 
